@@ -13,7 +13,7 @@ from .wind import WINDF, SOCK_INV, UNTIL, W as SOCKW
 from .lookup import ROW
 
 TC = 'py_ballisticcalc/trajectory_calc/_trajectory_calc.py'
-INTEGRATE_PROPS = ()     # set below once the contract is complete
+INTEGRATE_PROPS = ('C01', 'C03', 'C04', 'C11', 'C12', 'C15', 'C18')
 
 CALC = Obj(tc.TrajectoryCalc,
            _config=config_shape(), gravity_vector=Rec(Vector, x=Const(Fraction(0)), y=Real(hi=0, hi_open=True), z=Const(Fraction(0))),
@@ -49,27 +49,104 @@ INV = [
     ('filter-time-bookkeeping', f'{DF}.previous_time <= time and {DF}.time_of_last_record <= time'),
 ]
 
+
+# ---- specification fragments ----------------------------------------------------------------------------------------
+SIG = 'air_speed(head(velocity_vector), wind_vector)'
+DT = f'(self.calc_step / max(1.0, {SIG}))'
+RET = f'retardation(self, shot_info.atmo, head(range_vector.y), {SIG})'
+
+
+def U(c):
+    return f'(head(velocity_vector.{c}) - wind_vector.{c})'
+
+
+E, A = 'self.barrel_elevation', 'self.barrel_azimuth'
+V0 = {'x': f'self.muzzle_velocity * (math.cos({E}) * math.cos({A}))', 'y': f'self.muzzle_velocity * math.sin({E})',
+      'z': f'self.muzzle_velocity * (math.cos({E}) * math.sin({A}))'}
+P0 = {'x': '0', 'y': '-self.cant_cosine * self.sight_height', 'z': '-self.cant_sine * self.sight_height'}
+MUZZLE = ' and '.join([f'range_vector.{c} == {P0[c]}' for c in 'xyz'] + [f'velocity_vector.{c} == {V0[c]}' for c in 'xyz']
+                      + ['time == 0'])
+
+ENTRY = [
+    ('starts-at-the-muzzle-displaced-by-the-canted-sight-height-launched-along-the-barrel-at-muzzle-velocity', MUZZLE),
+    ('no-rows-yet-first-record-distance-is-the-muzzle',
+     f'len(ranges) == 0 and {DF}.next_record_distance == 0 and {DF}.previous_position.x == range_vector.x'),
+]
+STEP = [
+    dict(label='time-advances-by-the-step-normalised-by-the-air-relative-speed', props=('C01',),
+         src=f'time == head(time) + {DT} and {DT} > 0'),
+    dict(label='step-measured-with-the-pre-step-air-speed-is-half-the-configured-maximum-when-faster-than-1-fps',
+         props=('C18',), src=f'(time - head(time)) * max(1.0, {SIG}) == self.calc_step'),
+    dict(label='velocity-changes-by-dt-times-gravity-minus-retardation-times-the-air-relative-velocity', props=('C01',),
+         src=' and '.join([
+             f'velocity_vector.x == head(velocity_vector.x) - ({U("x")} * {RET}) * {DT}',
+             f'velocity_vector.y == head(velocity_vector.y) - ({U("y")} * {RET} - self._config.cGravityConstant) * {DT}',
+             f'velocity_vector.z == head(velocity_vector.z) - ({U("z")} * {RET}) * {DT}'])),
+    dict(label='position-changes-by-dt-times-the-new-velocity', props=('C01',),
+         src=' and '.join([f'range_vector.{c} == head(range_vector.{c}) + velocity_vector.{c} * {DT}' for c in 'xyz'])),
+    dict(label='wind-in-force-is-that-of-the-segment-containing-the-current-distance-none-beyond-the-last', props=('C12', 'C01'),
+         src=f'forall(0, len({WSW}), lambda i: implies({UNT.format(k="i")} <= head(range_vector.x), i < {WS}.current)) and '
+             f'forall(0, {WS}.current, lambda i: {UNT.format(k="i")} <= head(range_vector.x))'),
+    dict(label='the-state-kept-after-a-step-is-within-all-three-limits', props=('C04',),
+         src='velocity >= _cMinimumVelocity and range_vector.y >= _cMaximumDrop and '
+             'self.alt0 + range_vector.y >= _cMinimumAltitude'),
+]
+LAST = 'exc.incomplete_trajectory[len(exc.incomplete_trajectory) - 1]'
+RAISE = [
+    ('reason-is-the-first-violated-limit-in-the-order-velocity-drop-altitude',
+     '(exc.reason == "Minimum velocity reached") == (velocity < _cMinimumVelocity) and '
+     '(exc.reason == "Maximum drop reached") == (velocity >= _cMinimumVelocity and range_vector.y < _cMaximumDrop) and '
+     '(exc.reason == "Minimum altitude reached") == (velocity >= _cMinimumVelocity and range_vector.y >= _cMaximumDrop '
+     'and self.alt0 + range_vector.y < _cMinimumAltitude)'),
+    ('the-limits-are-those-of-this-calculators-configuration',
+     '_cMinimumVelocity == self._config.cMinimumVelocity and _cMaximumDrop == self._config.cMaximumDrop and '
+     '_cMinimumAltitude == self._config.cMinimumAltitude'),
+    ('last-row-of-the-partial-trajectory-is-the-offending-state',
+     f'len(exc.incomplete_trajectory) >= 1 and {LAST}.time == time and raw({LAST}.distance) == range_vector.x * 12 and '
+     f'raw({LAST}.height) == range_vector.y * 12'),
+    ('reported-last-distance-is-that-of-the-last-row', f'raw(exc.last_distance) == raw({LAST}.distance)'),
+    ('speed-checked-is-the-norm-of-the-velocity-after-the-step',
+     'velocity >= 0 and velocity * velocity == velocity_vector.x * velocity_vector.x + velocity_vector.y * velocity_vector.y '
+     '+ velocity_vector.z * velocity_vector.z'),
+]
+PHYSICS = ['range_vector', 'velocity_vector', 'time', 'wind_vector', f'{WS}.current', f'{WS}.next_range']
+RECORDING = [DF, 'ranges', 'record_step', 'time_step']
+
 contract(f'{TC}::TrajectoryCalc._integrate', props=INTEGRATE_PROPS,
          params=dict(self=CALC, shot_info=SHOT, maximum_range=Real(lo=0), record_step=Real(lo=0),
-                     filter_flags=Enum(0, 8, 31), time_step=Real(lo=0)),
+                     filter_flags=Enum(0, 31), time_step=Real(lo=0)),   # 8 (RANGE) and 31 (ALL) take the same paths here
          requires=[('curve-matches-table', 'len(self._curve) == len(self._TrajectoryCalc__mach_list)'),
                    ('table-ascending', 'forall(0, len(self._TrajectoryCalc__mach_list), lambda i: forall(i + 1, '
                                        'len(self._TrajectoryCalc__mach_list), lambda j: self._TrajectoryCalc__mach_list[i] < '
                                        'self._TrajectoryCalc__mach_list[j]))'),
                    ('gravity-vector-is-the-configured-gravity', 'self.gravity_vector.y == self._config.cGravityConstant'),
                    ('cant-is-a-rotation', 'self.cant_cosine * self.cant_cosine + self.cant_sine * self.cant_sine == 1')],
-         loops={0: LoopContract(invariants=INV,
-                                lemmas_end=[('time-step-is-positive', 'delta_time > 0')],
-                                hypotheses_end=[('H-fwd-the-projectile-keeps-moving-down-range', 'range_vector.x >= head(range_vector.x)')], types={'ranges': ListOf(ROW).alternatives()[0], 'filter': Flags(), 'current_flag': Flags(),
-                                              'seen_zero': Flags()})},
+         loops={0: LoopContract(
+             invariants=INV, entry=ENTRY, step=STEP,
+             hypotheses_end=[('H-fwd-the-projectile-keeps-moving-down-range', 'range_vector.x >= head(range_vector.x)')],
+             lemmas_end=[('time-step-is-positive', 'delta_time > 0')],
+             independent=[('what-is-recorded-never-changes-what-is-computed', PHYSICS, RECORDING)],
+             types={'ranges': ListOf(ROW).alternatives()[0], 'filter': Flags(), 'current_flag': Flags(),
+                    'seen_zero': Flags()})},
          raises={'RangeError': None},
-         modifies=['*._defined_units'], prune=True, heavy=True,
+         exc_ensures={'RangeError': RAISE},
+         ensures=[('returns-the-recorded-rows-at-least-one', 'len(result) >= 1'),
+                  # ASSUMED (role 'assumed', never counted as discharged): with no recording the single row returned is a
+                  # function of the barrel elevation and the range for a fixed shot - the code is deterministic and
+                  # modifies nothing (frame clause of this contract; C10 scan: no random/time/id sources)
+                  ('zeroing-run-height-is-a-function-of-the-elevation-used',
+                   'implies(filter_flags == 0, raw(result[0].height) == zero_run_height(self.barrel_elevation, maximum_range) * 12)',
+                   'assumed'),
+                  ('loop-left-only-beyond-the-requested-range-plus-the-smaller-of-calc-step-and-record-step',
+                   'range_vector.x > maximum_range + min(self.calc_step, record_step)')],
+         modifies=['*._defined_units'], prune=True, heavy=True, modular=True,
+         result_shape=ListOf(ROW, minlen=1).alternatives()[0],
          use={f'{TC}::_TrajectoryDataFilter.should_record': [
                   'range-row-exactly-at-the-record-distance', 'recorded-distance-is-the-last-multiple-not-beyond-the-projectile',
                   'no-multiple-is-skipped-when-a-step-advances-by-at-most-the-record-step', 'range-flag-and-bookkeeping',
                   'time-row-only-when-no-range-row-and-the-time-step-has-passed', 'other-rows-are-the-current-state',
                   'a-row-is-returned-exactly-when-a-requested-flag-is-raised', 'remembers-the-current-state-for-the-next-step',
-                  'seen-flags', 'settings-untouched'],
+                  'seen-flags', 'settings-untouched', 'time-of-last-record-is-the-old-one-or-now'],
               f'{TC}::create_trajectory_row': ['time-distance-height-are-the-state', 'density-drag-flag-passed-through',
                                                'mach-is-speed-over-speed-of-sound'],
               f'{TC}::TrajectoryCalc.drag_by_mach': [],
